@@ -18,8 +18,9 @@ ASSUMPTIONS = ['TonBag.Put / Read decide fits/does-not-fit; any Python exception
 
 
 def model_checks(tier):
-    from drivers.bagmc import bag_checks
-    return bag_checks(tier)
+    import os
+    from drivers.bagmc import bag_checks, bag_sim
+    return bag_checks(tier) + [bag_sim(tier, 1000 + int(os.environ.get('VERIF_SEED', '0') or 0))]
 
 
 def make_canaries(shards, rng, want):
@@ -237,6 +238,18 @@ def generate(tier, seed, ctx):
                     p.call({'op': 'end_cell', 'obj': b, 'new': c})
                 else:
                     p.cell_from_bits([1, 0], [t], plain=False)
+    # spec -> code: behaviours of the full-size TonBag machine chosen by TLC's simulation mode, INCLUDING calls whose guard is
+    # false (StepRefuse: the call must be refused, its target is then forgotten), replayed call by call
+    sims = ctx['mc'].get('bag_sim', [])
+    want = 150 if q else 3000
+    if len(sims) > want:
+        sims = rng.sample(sims, want)
+    for calls in sims:
+        p = fresh()
+        for c in calls:
+            if c['op'] == 'forget' and any(i not in p.objs for i in c['ids']):
+                continue
+            p.call(dict(c), tags=['tlc_behaviour'])
     k = 0
     for sh in shards:
         for r in sh:
